@@ -100,7 +100,7 @@ class RationalQuadraticSpline(AbstractBijection):
         # Following notation from the paper
         x_pos, y_pos, derivatives = self.x_pos, self.y_pos, self.derivatives
         in_bounds = jnp.logical_and(x >= self.interval[0], x <= self.interval[1])
-        x_robust = jnp.where(in_bounds, x, 0)  # To avoid nans
+        x_robust = jnp.where(in_bounds, x, self.interval[0])  # To avoid nans
         k = jnp.searchsorted(x_pos, x_robust) - 1  # k is bin number
         k = jnp.clip(k, 0, len(x_pos) - 2)  # x == interval[0] belongs to the first bin
         xi = (x_robust - x_pos[k]) / (x_pos[k + 1] - x_pos[k])
@@ -123,7 +123,7 @@ class RationalQuadraticSpline(AbstractBijection):
         # Following notation from the paper
         x_pos, y_pos, derivatives = self.x_pos, self.y_pos, self.derivatives
         in_bounds = jnp.logical_and(y >= self.interval[0], y <= self.interval[1])
-        y_robust = jnp.where(in_bounds, y, 0)  # To avoid nans
+        y_robust = jnp.where(in_bounds, y, self.interval[0])  # To avoid nans
         k = jnp.searchsorted(y_pos, y_robust) - 1
         k = jnp.clip(k, 0, len(y_pos) - 2)  # y == interval[0] belongs to the first bin
         xk, xk1, yk, yk1 = x_pos[k], x_pos[k + 1], y_pos[k], y_pos[k + 1]
@@ -152,7 +152,7 @@ class RationalQuadraticSpline(AbstractBijection):
         # Following notation from the paper (eq. 5)
         x_pos, y_pos, derivatives = self.x_pos, self.y_pos, self.derivatives
         in_bounds = jnp.logical_and(x >= self.interval[0], x <= self.interval[1])
-        x_robust = jnp.where(in_bounds, x, 0)  # To avoid nans
+        x_robust = jnp.where(in_bounds, x, self.interval[0])  # To avoid nans
         k = jnp.searchsorted(x_pos, x_robust) - 1
         k = jnp.clip(k, 0, len(x_pos) - 2)  # x == interval[0] belongs to the first bin
         xi = (x_robust - x_pos[k]) / (x_pos[k + 1] - x_pos[k])
